@@ -236,10 +236,11 @@ class Ctx:
                 ok = False
                 self.log("translator gen_%s FAILED: %s" % (g, err.strip()[-400:]))
                 # leave a stub that cannot satisfy the obligations: file absent
-                try:
-                    os.remove(target)
-                except OSError:
-                    pass
+                for ext in (".v", ".vo", ".vok", ".vos", ".glob"):
+                    try:
+                        os.remove(target[:-2] + ext)
+                    except OSError:
+                        pass
                 self.broken_tie("translator:gen_%s" % g,
                                 "translator could not find its source construct: " + err.strip()[-300:])
             else:
@@ -398,6 +399,7 @@ class Ctx:
 
     def write_replay(self, obj, tag="v"):
         d = os.path.join(BUILD, "replay")
+        os.makedirs(d, exist_ok=True)
         p = os.path.join(d, "%s_%s_%d_%d.json" % (self.prop, tag, self.seed, len(self.violations) + len(self.known_hits)))
         with open(p, "w") as f:
             json.dump(obj, f, indent=1, default=repr)
